@@ -1,6 +1,6 @@
 (* C12 - Revocation results are complete, positional and internally consistent.
    Statements only; proofs in Proofs/Revocation.v. *)
-From NCG Require Import Model.Revocation Proofs.Ocsp Proofs.CrlCheck Proofs.Revocation Run.RevSpec Proofs.ReflectRev.
+From NCG Require Import Model.Revocation Proofs.Ocsp Proofs.CrlCheck Proofs.Revocation Run.RevSpec Proofs.ReflectRev Proofs.SpecAcceptsModel.
 
 (* exactly one result per certificate, in chain order, slot i describing certificate i; the root
    slot is NonRevokable; an empty or non-conforming chain gives the invalid-chain error and no results *)
@@ -49,3 +49,8 @@ Theorem C12_checked_standalone_consistency : forall c r, consistent_ocsp_b c r =
   (c_ocsp c <> [] /\ cr_method r = MOCSP /\ OcspEntries (c_ocsp c) (cr_result r) (cr_servers r)).
 Proof. exact consistent_ocsp_b_iff. Qed.
 Print Assumptions C12_checked_standalone_consistency.
+
+(* ... and it accepts every result of the model *)
+Theorem C12_spec_side_accepts_model : forall w st c, consistent_b c (fst (check_cert w st c)) = true.
+Proof. exact model_result_consistent. Qed.
+Print Assumptions C12_spec_side_accepts_model.
